@@ -405,22 +405,32 @@ impl Indexable for ast::TemplateArgDecl {
         let (name, define_loc) = utils::identifier(&self.name()?, ctx)?;
         let typ = self.r#type()?.index(ctx)?;
         let has_default_value = self.value().is_some();
-        let template_arg = TemplateArgument::new(name.clone(), typ, has_default_value, define_loc);
+        let template_arg =
+            TemplateArgument::new(name.clone(), typ.clone(), has_default_value, define_loc);
         let template_arg_id = ctx.symbol_map.add_template_argument(template_arg);
 
         if let Some(record_id) = ctx.scopes.current_record_id() {
             let record = ctx.symbol_map.record_mut(record_id);
-            record.add_template_arg(name, template_arg_id);
+            record.add_template_arg(name.clone(), template_arg_id);
         } else if let Some(multiclass_id) = ctx.scopes.current_multiclass_id() {
             let multiclass = ctx.symbol_map.multiclass_mut(multiclass_id);
-            multiclass.add_template_arg(name, template_arg_id);
+            multiclass.add_template_arg(name.clone(), template_arg_id);
         } else {
             tracing::debug!("{} {:?}", line!(), ctx.scopes);
             panic!("template arg decl outside of record or multiclass");
         }
 
         if let Some(value) = self.value() {
-            value.index(ctx);
+            if let Some(value_typ) = value.index(ctx) {
+                if !value_typ.can_be_casted_to(&ctx.symbol_map, &typ) {
+                    ctx.error(
+                        value.syntax().text_range(),
+                        format!(
+                            "template argument '{name}' of type '{typ}' is incompatible with type '{value_typ}'",
+                        ),
+                    );
+                }
+            }
         }
 
         None
